@@ -283,6 +283,7 @@ func check(raw json.RawMessage) fw.Result {
 		firstSide = opposite(firstSide)
 	}
 	facts := make([]pageFacts, np)
+	pendingName := map[int]string{} // page index -> deferred page-type verdict (name only)
 	side := firstSide
 	for i := range pages {
 		f := pageFacts{Index: i, First: i == 0, Blank: first[i] < 0, Side: side}
@@ -297,6 +298,15 @@ func check(raw json.RawMessage) fw.Result {
 		facts[i] = f
 		side = opposite(side)
 		pt := pages[i].PageType
+		if i > 0 && !f.Blank && pt.Index == i && pt.First == f.First && pt.Side == f.Side && pt.Blank == f.Blank && pt.Name != f.Name {
+			// Only the name differs.  A consequence of open finding F-C12-page-bottom-float32-rounding
+			// is that the page following the pushed block takes the page name the aborted layout of
+			// that block had announced: the verdict is deferred until the end of the previous page has
+			// been judged, and the page is judged meanwhile with the page type /repo gave it.
+			pendingName[i] = sprintf("page %d has page type %+v; expected index %d first %v side %s blank %v name %q (sides alternate from the first page; a page is blank iff it has no content; its name is the `page` value of its first content)", i+1, pt, i, f.First, f.Side, f.Blank, f.Name)
+			facts[i].Name = pt.Name
+			continue
+		}
 		if pt.Index != i || pt.First != f.First || pt.Side != f.Side || pt.Blank != f.Blank || (!f.Blank && pt.Name != f.Name) {
 			res.Fail("page-type", sprintf("page %d has page type %+v; expected index %d first %v side %s blank %v name %q (sides alternate from the first page; a page is blank iff it has no content; its name is the `page` value of its first content)", i+1, pt, i, f.First, f.Side, f.Blank, f.Name))
 			return res
@@ -423,6 +433,7 @@ func check(raw json.RawMessage) fw.Result {
 	// ---- (b)(c)(d) page ends
 	var known fw.Result // first occurrence of a pattern recorded as an open finding (see notes)
 	knownPage := make([]bool, np)
+	float32Page := make([]bool, np) // pages whose end is the pattern of F-C12-page-bottom-float32-rounding
 	fl.exact = true
 	for _, u := range fl.units {
 		if u.h != math.Trunc(u.h) {
@@ -456,7 +467,7 @@ func check(raw json.RawMessage) fw.Result {
 					// open finding F-C12-page-bottom-float32-rounding (see notes)
 					known.Fail("page-bottom-float32-rounding", sprintf("page %d: %s; %s", i+1, v.msg, why))
 					res.Count("known_pattern_page_ends", 1)
-					knownPage[i] = true
+					knownPage[i], float32Page[i] = true, true
 					continue
 				}
 			}
@@ -534,6 +545,24 @@ func check(raw json.RawMessage) fw.Result {
 				return res
 			}
 		}
+	}
+
+	// deferred page-type verdicts: a wrong page name is only excused right after a page end that shows
+	// the float32 pattern
+	for i := 0; i < np; i++ {
+		msg, ok := pendingName[i]
+		if !ok {
+			continue
+		}
+		j := i - 1
+		for j > 0 && facts[j].Blank {
+			j--
+		}
+		if !float32Page[j] {
+			res.Fail("page-type", msg)
+			return res
+		}
+		res.Count("known_pattern_page_names", 1)
 	}
 
 	// ---- box decorations: every fragment of a generated block has the top padding/border of the
